@@ -1,5 +1,5 @@
 CONSTANTS MaxIn = 3  MaxOut = 3
           CoinSet = {"BTC", "BCH", "BTG", "GRS"}
-          ScenarioIds = {1, 2, 3, 4, 5, 6, 7, 8, 9, 10, 11, 12}
+          ScenarioIds = {1, 2, 3, 4, 5, 6, 7, 8, 9, 10, 11, 12, 13, 14}  FewHtIds = {14}
 SPECIFICATION Spec
 CHECK_DEADLOCK FALSE
